@@ -736,13 +736,41 @@ func (c *Ctx) ruleB3() {
 		}
 		// inserts into a table held by the receiver
 		var ins *ssa.MapUpdate
-		eachInstr(f, func(in ssa.Instruction) {
-			if mu, ok := in.(*ssa.MapUpdate); ok && isRecvMap(f, mu.Map) {
-				if _, isPtr := mu.Value.Type().(*types.Pointer); isPtr {
+		for _, g := range withClosures(f) {
+			eachInstr(g, func(in ssa.Instruction) {
+				mu, ok := in.(*ssa.MapUpdate)
+				if !ok {
+					return
+				}
+				if _, isPtr := mu.Value.Type().(*types.Pointer); !isPtr {
+					return
+				}
+				// the receiver's map, also when written from a function literal that captured the receiver
+				isTable := isRecvMap(f, mu.Map)
+				if !isTable && g != f {
+					if u, ok := mu.Map.(*ssa.UnOp); ok && u.Op == token.MUL {
+						if fa, ok := u.X.(*ssa.FieldAddr); ok {
+							base := fa.X
+							for {
+								inner, ok := base.(*ssa.FieldAddr)
+								if !ok {
+									break
+								}
+								base = inner.X
+							}
+							if ld, ok := base.(*ssa.UnOp); ok {
+								if _, isFree := ld.X.(*ssa.FreeVar); isFree && f.Signature.Recv() != nil && types.Identical(ld.Type(), f.Params[0].Type()) {
+									isTable = true
+								}
+							}
+						}
+					}
+				}
+				if isTable {
 					ins = mu
 				}
-			}
-		})
+			})
+		}
 		if ins == nil {
 			continue
 		}
